@@ -987,6 +987,18 @@ func (in *esInterp) patch(enc string) string {
 	if v, ok := s.attr("ParetoFrontMember"); ok {
 		member = b2s(v == true)
 	}
+	// C03 (engine clause): the model served after the encoding was set says ValidAgainstScenario = true only if a fresh
+	// model at that set is within the scenario's limit — whether or not the set is a member of the loaded summary
+	if in.limVar >= 0 {
+		if want, ok := esDecode(enc, in.n()); ok {
+			v := in.ref.at(want).totals[in.limVar]
+			valid, has := s.attr("ValidAgainstScenario")
+			in.c.Stat(fmt.Sprintf("C03: model after PATCH: value %s limit, ValidAgainstScenario=%v", map[bool]string{true: "above", false: "within"}[v > in.limit], valid))
+			if has && v > in.limit && valid == true {
+				in.fail("enginesummary:valid-flag-not-evaluated", fmt.Sprintf("scenario limit %s = %v; after PATCH /api/v1/model with encoding %q the model has %s = %v, yet GET /api/v1/model reports ValidAgainstScenario=true", varMaxKey[in.limVar], in.limit, enc, varNames[in.limVar], v))
+			}
+		}
+	}
 	// ---- the property: a non-as-is row's encoding is a member; an encoding of no row is not
 	if in.posted != nil {
 		bits, ok := esDecode(enc, in.n())
@@ -1709,6 +1721,11 @@ func suiteEngineSummaries(c *Ctx) {
 		}
 		for _, r := range s.rows {
 			in.do("getvalid " + esHx(r.label))
+		}
+		// … and the MODEL moved onto each member by its encoding: membership of the loaded summary says nothing about
+		// validity against this engine's scenario
+		for _, r := range s.rows {
+			in.do("patch " + esHx(r.enc))
 		}
 	}
 
